@@ -493,6 +493,8 @@ def judge_c13(plan, result):
     dead = {}  # obj -> how its chain ended early
     ev_modules = {}
     ev_indep = {}
+    ev_cfg = {}
+    ref_modules = {}
     for ev in result["log"]:
         op, res = ev["op"], ev["res"]
         kind = op["op"]
@@ -509,6 +511,10 @@ def judge_c13(plan, result):
             if res["r"] == "ok":
                 ev_modules[op["ev"]] = result["snaps"][res["snap"]]["modules"]
                 ev_indep[op["ev"]] = _independent_bounds(plan, cfg)
+                ev_cfg[op["ev"]] = op["cfg"]
+                if op.get("ref"):
+                    # the same request made before any request of the session was cut short
+                    ref_modules.setdefault(op["cfg"], set(ev_modules[op["ev"]]))
             if reason:
                 st["entry_must_reject"] += 1
                 _bump(st["reasons"], "entry:" + reason)
@@ -596,6 +602,16 @@ def judge_c13(plan, result):
                 undef = models.filters_undefined(sp.mentioned(), mods)
                 # names the architecture cannot define whatever its own module list says: not on
                 # disk at all, or deeper than the level limit it was built with
+                clean = ref_modules.get(ev_cfg.get(op["ev"]))
+                if clean is not None:
+                    # absent from the architecture the same request built before anything was cut
+                    # short: absent, whatever this architecture lists now
+                    for k_, v_ in models.filters_undefined(sp.mentioned(), sorted(clean)):
+                        _bump(st["independent_undefined"], "absent-from-the-clean-scan-of-the-same-request")
+                        if (k_, v_) not in undef:
+                            undef.append((k_, v_))
+                            _bump(st["independent_undefined"],
+                                  "absent-from-the-clean-scan-of-the-same-request/although-listed-by-the-architecture")
                 for k_, v_ in sp.mentioned():
                     why_ = _surely_undefined(k_, v_, ev_indep.get(op["ev"]))
                     if why_:
